@@ -29,10 +29,13 @@ def buildMachine (layer : String) (toks : List String) : Option AnyMachine :=
   match parseHdr toks with
   | none => none
   | some h =>
-    let C := Toy.cipher h.key h.bs
+    -- `tab=…` (thorough tier, real ciphers): the logged blocks are the cipher; the pseudo-width ≥ 101 only names it
+    let C := match (kv toks "tab").bind parseTab with
+      | some tab => tabCipher h.bs tab
+      | none => Toy.cipher h.key h.bs
     let isSpec := layer == "spec"
     let bs := h.bs
-    let w := h.w
+    let w := if h.w ≥ 100 then 1 else h.w
     let mode := h.mode
     let iv := h.iv
     match h.family with
@@ -60,8 +63,20 @@ def buildMachine (layer : String) (toks : List String) : Option AnyMachine :=
         match (if isSpec then ctsSpec C mode iv else ctsImpl C w mode iv) with
         | some fs => some ⟨_, ctsMachine bs fs 16 ivLen⟩
         | none => none
-    | "toy" => some ⟨_, toyMachine h.key⟩
+    | "toy" => some ⟨_, toyMachine C⟩
     | _ => none
+
+/-- operations that reach the same backend entry points by another public route have, by the batching theorems
+    (C07: any mixture of single-block / parallel / tail entry points = one block at a time), the value of the
+    plain many-block operation: caller-written closures for `*_with_backend` / `process_with_backend`, and the
+    single-block `apply_keystream_block_inout`. -/
+def normOp (toks : List String) : List String :=
+  match toks with
+  | ["backend", _, x] => ["blocks", x]
+  | ["applyblock", x] => ["applyblocks", x]
+  | ["applyblockb", x, g] => ["applyblocksb", x, g]
+  | ["ksdirect", _, n] => ["ksblocks", n]
+  | t => t
 
 partial def runCase {σ : Type} (m : Machine σ) (h out : IO.FS.Stream) (s : σ) : IO Bool := do
   let line ← h.getLine
@@ -75,7 +90,7 @@ partial def runCase {σ : Type} (m : Machine σ) (h out : IO.FS.Stream) (s : σ)
     out.putStrLn "dcalls 0"
     runCase m h out s
   | _ =>
-    let r := m.step s toks
+    let r := m.step s (normOp toks)
     out.putStrLn r.2
     runCase m h out r.1
 
